@@ -2131,6 +2131,16 @@ class Verifier(Engine):
                 p.scope = saved_scope; p.loop_old = saved_lo
                 out.append((p, 'normal', None))
             else:
+                if status == 'return' and ls.on_return:
+                    # `on_return`: a clause over the loop's variables that holds wherever the function returns from inside this loop
+                    # (`returned` names the returned value)
+                    keep_ = (p.scope, 'returned' in p.env, p.env.get('returned'))
+                    p.scope = L.scope
+                    if rv is not None and not self.curf.ret_ref: p.env['returned'] = rv
+                    for cl in ls.on_return: self.check_clause(cl, p, 'loop%d.on_return' % L.ordinal)
+                    p.scope = keep_[0]
+                    if keep_[1]: p.env['returned'] = keep_[2]
+                    else: p.env.pop('returned', None)
                 out.append((p, status, rv))
         if not z3.is_true(z3.simplify(c)) and self.feasible(ex, z3.BoolVal(True)):
             if sum_terms:
